@@ -671,4 +671,86 @@ func verifControlGood7(in io.Reader, n int) ([]byte, error) {
 	}
 	return out, nil
 }
+
+// TOK-4: the helper fills a caller-owned container and answers it at its full length
+func verifControlFieldsInto(dst []string, s string) []string {
+	n := 0
+	for _, f := range strings.Fields(s) {
+		if n < len(dst) {
+			dst[n] = f
+			n++
+		}
+	}
+	return dst
+}
+
+func verifControlTOK4Bad(in io.Reader, n int) ([]string, error) {
+	s := bufio.NewScanner(in)
+	out := make([]string, 0, n)
+	f := make([]string, 2)
+	for len(out) < n {
+		if !s.Scan() {
+			return nil, io.ErrUnexpectedEOF
+		}
+		f = verifControlFieldsInto(f, s.Text())
+		if len(f) < 2 {
+			return nil, io.ErrUnexpectedEOF
+		}
+		out = append(out, f[0]+f[1])
+	}
+	return out, nil
+}
+
+// TOK-4: pieces of the line are stored into a buffer made before the loop, which is then length-tested itself
+func verifControlTOK4BufBad(in io.Reader, n int) ([]string, error) {
+	s := bufio.NewScanner(in)
+	out := make([]string, 0, n)
+	f := make([]string, 2)
+	for len(out) < n {
+		if !s.Scan() {
+			return nil, io.ErrUnexpectedEOF
+		}
+		line := s.Text()
+		if k := strings.IndexByte(line, ' '); k < 0 {
+			f[0] = line
+		} else {
+			f[0] = line[:k]
+			f[1] = line[k+1:]
+		}
+		if len(f) < 2 {
+			return nil, io.ErrUnexpectedEOF
+		}
+		out = append(out, f[0]+f[1])
+	}
+	return out, nil
+}
+
+// a reused buffer is fine when the helper answers a view as long as the tokens it found on this line
+func verifControlFieldsN(dst []string, s string) []string {
+	n := 0
+	for _, f := range strings.Fields(s) {
+		if n < len(dst) {
+			dst[n] = f
+			n++
+		}
+	}
+	return dst[:n]
+}
+
+func verifControlGood15(in io.Reader, n int) ([]string, error) {
+	s := bufio.NewScanner(in)
+	out := make([]string, 0, n)
+	buf := make([]string, 2)
+	for len(out) < n {
+		if !s.Scan() {
+			return nil, io.ErrUnexpectedEOF
+		}
+		f := verifControlFieldsN(buf, s.Text())
+		if len(f) < 2 {
+			return nil, io.ErrUnexpectedEOF
+		}
+		out = append(out, f[0]+f[1])
+	}
+	return out, nil
+}
 `
